@@ -14,6 +14,13 @@ Definition addr (rho : regfile) (m : memop) : Z :=
   + (match m_index m with Some i => rho (fullname i) * m_scale m | None => 0 end)
   + (match m_off m with OImm v => v | _ => 0 end).
 
+(* the address a LOAD reads, evaluated in the register file AFTER the load's own register changes have been applied (the
+   tracking state handed to is_memload includes them): a pre-indexed load reads from its already bumped base *)
+Definition addr_load (rho : regfile) (m : memop) : Z :=
+  (match m_base m with Some b => rho (fullname b) | None => 0 end)
+  + (match m_index m with Some i => rho (fullname i) * m_scale m | None => 0 end)
+  + (if m_pre m then 0 else match m_off m with OImm v => v | _ => 0 end).
+
 (* s describes rho relative to rho0 (the register file when the store executed) *)
 Definition describes (s : rstate) (rho0 rho : regfile) : Prop :=
   forall reg, match rs_get s reg with
@@ -37,9 +44,11 @@ Theorem memload_sound mem s src rho0 rho :
   describes s rho0 rho ->
   memload_one mem s src = true ->
   (match m_off src with OSym => False | _ => True end) ->
-  addr rho src = addr rho0 mem.
+  addr_load rho src = addr rho0 mem.
 Proof.
-  intros D H Hsrc. unfold memload_one in H. unfold addr.
+  intros D H Hsrc. unfold memload_one in H. unfold addr_load, addr.
+  destruct (m_pre src) eqn:PRE.
+  all: cycle 1.
   destruct (m_off mem) as [|vm|] eqn:OM; [| |discriminate].
   - (* store without displacement *)
     destruct (m_base mem) as [mb|] eqn:BM, (m_base src) as [sb|] eqn:BS; try discriminate.
@@ -83,6 +92,51 @@ Proof.
         pose proof (describes_lookup _ _ _ _ _ _ D LI) as RI.
         apply Z.eqb_eq in H. rewrite RI, SC. destruct (m_off src); try contradiction; nia.
       * apply Z.eqb_eq in H. destruct (m_off src); try contradiction; lia.
+  - {
+  destruct (m_off mem) as [|vm|] eqn:OM; [| |discriminate].
+  - (* store without displacement *)
+    destruct (m_base mem) as [mb|] eqn:BM, (m_base src) as [sb|] eqn:BS; try discriminate.
+    + destruct (lookup_change s sb) as [[nm v]|] eqn:LB; [|discriminate].
+      destruct (String.eqb (fullname mb) nm) eqn:EN; [|discriminate]. apply String.eqb_eq in EN. subst nm.
+      pose proof (describes_lookup _ _ _ _ _ _ D LB) as RB.
+      destruct (m_index mem) as [mi|] eqn:IM, (m_index src) as [si|] eqn:IS; try discriminate.
+      * destruct (lookup_change s si) as [[nmi vi]|] eqn:LI; [|discriminate].
+        destruct (negb (Z.eqb (m_scale mem) (m_scale src))) eqn:SC; [discriminate|].
+        apply negb_false_iff, Z.eqb_eq in SC.
+        destruct (String.eqb (fullname mi) nmi) eqn:ENI; [|discriminate]. apply String.eqb_eq in ENI. subst nmi.
+        pose proof (describes_lookup _ _ _ _ _ _ D LI) as RI.
+        apply Z.eqb_eq in H. rewrite RB, RI, SC. destruct (m_off src); try contradiction; nia.
+      * apply Z.eqb_eq in H. rewrite RB. destruct (m_off src); try contradiction; lia.
+    + destruct (m_index mem) as [mi|] eqn:IM, (m_index src) as [si|] eqn:IS; try discriminate.
+      * destruct (lookup_change s si) as [[nmi vi]|] eqn:LI; [|discriminate].
+        destruct (negb (Z.eqb (m_scale mem) (m_scale src))) eqn:SC; [discriminate|].
+        apply negb_false_iff, Z.eqb_eq in SC.
+        destruct (String.eqb (fullname mi) nmi) eqn:ENI; [|discriminate]. apply String.eqb_eq in ENI. subst nmi.
+        pose proof (describes_lookup _ _ _ _ _ _ D LI) as RI.
+        apply Z.eqb_eq in H. rewrite RI, SC. destruct (m_off src); try contradiction; nia.
+      * apply Z.eqb_eq in H. destruct (m_off src); try contradiction; lia.
+  - (* store with immediate displacement vm *)
+    destruct (m_base mem) as [mb|] eqn:BM, (m_base src) as [sb|] eqn:BS; try discriminate.
+    + destruct (lookup_change s sb) as [[nm v]|] eqn:LB; [|discriminate].
+      destruct (String.eqb (fullname mb) nm) eqn:EN; [|discriminate]. apply String.eqb_eq in EN. subst nm.
+      pose proof (describes_lookup _ _ _ _ _ _ D LB) as RB.
+      destruct (m_index mem) as [mi|] eqn:IM, (m_index src) as [si|] eqn:IS; try discriminate.
+      * destruct (lookup_change s si) as [[nmi vi]|] eqn:LI; [|discriminate].
+        destruct (negb (Z.eqb (m_scale mem) (m_scale src))) eqn:SC; [discriminate|].
+        apply negb_false_iff, Z.eqb_eq in SC.
+        destruct (String.eqb (fullname mi) nmi) eqn:ENI; [|discriminate]. apply String.eqb_eq in ENI. subst nmi.
+        pose proof (describes_lookup _ _ _ _ _ _ D LI) as RI.
+        apply Z.eqb_eq in H. rewrite RB, RI, SC. destruct (m_off src); try contradiction; nia.
+      * apply Z.eqb_eq in H. rewrite RB. destruct (m_off src); try contradiction; lia.
+    + destruct (m_index mem) as [mi|] eqn:IM, (m_index src) as [si|] eqn:IS; try discriminate.
+      * destruct (lookup_change s si) as [[nmi vi]|] eqn:LI; [|discriminate].
+        destruct (negb (Z.eqb (m_scale mem) (m_scale src))) eqn:SC; [discriminate|].
+        apply negb_false_iff, Z.eqb_eq in SC.
+        destruct (String.eqb (fullname mi) nmi) eqn:ENI; [|discriminate]. apply String.eqb_eq in ENI. subst nmi.
+        pose proof (describes_lookup _ _ _ _ _ _ D LI) as RI.
+        apply Z.eqb_eq in H. rewrite RI, SC. destruct (m_off src); try contradiction; nia.
+      * apply Z.eqb_eq in H. destruct (m_off src); try contradiction; lia.
+  }
 Qed.
 
 (* no link when base/index presence differs or the store's displacement is symbolic *)
